@@ -358,6 +358,14 @@ def apply_op(fam, m, op, state):
         # a prediction under other numerical settings (jitter contexts); later predictions run under the defaults again
         with S.variational_cholesky_jitter(float_value=1e-2, double_value=1e-2), S.cholesky_jitter(float_value=1e-3, double_value=1e-3):
             return predict(m, f.xs)
+    elif op == "prior_jitter":
+        # a prior-mode call under the jitter contexts of `pred_jitter` (no posterior quantity is computed)
+        with S.variational_cholesky_jitter(float_value=1e-2, double_value=1e-2), S.cholesky_jitter(float_value=1e-3, double_value=1e-3):
+            if exact:
+                with S.prior_mode(True):
+                    call(m, f.xs)
+            else:
+                m(f.xs, prior=True)
     elif op == "pred_loose":
         # a quick-and-rough prediction: iterative solves stopped early, rank-3 LOVE cache
         with S.max_cholesky_size(0), S.eval_cg_tolerance(0.3), S.max_root_decomposition_size(3):
